@@ -239,6 +239,17 @@ func rewrite(p *packages.Package, f *ast.File) {
 					}
 				}
 				// the enclosing function must still end in a terminating statement: only do it when the rest ends in a jump as well
+				// `a, err := f()` re-uses an `err` of the same scope and declares a new one in a nested block: moving such a statement
+				// into a block changes which variable later code (a deferred closure, say) refers to
+				for _, r := range rest {
+					if as, ok := r.(*ast.AssignStmt); ok && as.Tok == token.DEFINE {
+						for _, l := range as.Lhs {
+							if id, ok := l.(*ast.Ident); ok && id.Name != "_" && info.Defs[id] == nil {
+								bad = true
+							}
+						}
+					}
+				}
 				if bad || !endsInJump(&ast.BlockStmt{List: rest}) {
 					continue
 				}
@@ -756,7 +767,14 @@ func rewrite(p *packages.Package, f *ast.File) {
 			if !ok || s.Else != nil || s.Init != nil || len(s.Body.List) < 2 {
 				return true
 			}
-			if !pick() {
+			// a `:=` that declares several names inside the branch would re-use names of the loop body's scope once moved out
+			multi := false
+			for _, r := range s.Body.List {
+				if as, ok := r.(*ast.AssignStmt); ok && as.Tok == token.DEFINE && len(as.Lhs) > 1 {
+					multi = true
+				}
+			}
+			if multi || !pick() {
 				return true
 			}
 			guard := &ast.IfStmt{Cond: not(s.Cond), Body: &ast.BlockStmt{List: []ast.Stmt{&ast.BranchStmt{Tok: token.CONTINUE}}}}
